@@ -1,6 +1,8 @@
 // C06 harness: runs libphysica's gamma-function family on the case file (see checks/C06.py for the case grammar)
 #include "common.hpp"
 #include "libphysica/Special_Functions.hpp"
+#include "libphysica/Integration.hpp"
+#include <sstream>
 namespace libphysica
 {
 // defined in src/Special_Functions.cpp with external linkage, not declared in the header
@@ -248,6 +250,35 @@ static void handler(vh::Reader& r, vh::Out& o)
 			o.f(Upper_Incomplete_Gamma(x, a));
 		else
 			o.f(Lower_Incomplete_Gamma(x, a));
+	}
+	else if(op == "qintw" || op == "integw")
+	{
+		// the diagnostics Integrate prints on std::cout (src/Integration.cpp:92-100) are captured and counted
+		std::ostringstream cap;
+		std::streambuf* old = std::cout.rdbuf(cap.rdbuf());
+		double v;
+		if(op == "qintw")
+		{
+			double x = r.num(), a = r.num();
+			v = GammaQint(x, a);
+		}
+		else
+		{
+			auto f = vh::fun1(vh::parse_fexpr(r));
+			double a = r.num(), b = r.num(), e = r.num();
+			long d = r.integer();
+			v = Integrate(f, a, b, e, (int) d);
+		}
+		std::cout.rdbuf(old);
+		std::string t = cap.str();
+		long nw = 0, nn = 0;
+		for(size_t p = 0; (p = t.find("did not converge", p)) != std::string::npos; p++)
+			nw++;
+		for(size_t p = 0; (p = t.find("Result is nan", p)) != std::string::npos; p++)
+			nn++;
+		o.f(v);
+		o.i(nw);
+		o.i(nn);
 	}
 	else if(op == "pq")
 	{
